@@ -13,7 +13,7 @@ PROP = 'C05'
 RULE = ('Hypothesis-generated histories of 1..12 steps against ONE worker process: each step = (document, format, extensions, language, '
         'API shape) with documents from a pool chosen for statefulness (e-mail autolinks, notes/citations/glossary/abbreviations, headings '
         '+ cross-references, tables, images, metadata, CriticMarkup, a multi-slab document, OPML source) plus G-doc and corpus documents; '
-        'API shapes: string / DString / to_data variants, a reused engine converting several formats with metadata queries in between (or metadata queries only, before the engine is given another source), '
+        'API shapes: string / DString / to_data variants, a reused engine converting several formats with metadata queries in between (or metadata queries only, or a partial parse of a sub-range, before the engine goes on to the next step), '
         'in-place source replacement through mmd_engine_d_string(), and exporting the already parsed tree of a reused engine again through '
         'mmd_engine_export_token_tree() without re-parsing (one parse, many writers); random-anchor steps are executed as history but not compared; '
         'pool bracket per step or around the whole history. Oracle: every compared step equals the same call made FIRST in a fresh '
@@ -36,6 +36,7 @@ STATEFUL = [
     'Critic {++add++} {--del--} {~~old~>new~~} {==hi==}{>>comment<<} done.\n',
     'HTML <span class="x">inline</span> &amp; &copy; entity\n\n<div>\nblock *raw*\n</div>\n',
     '*Emph* **strong** `code` ``co`de`` <http://auto.link/> [link](http://x.y/ "t")\n\n    indented code <&>\n\n```python\nfenced & <b>\n```\n',
+    'She said "hello" and \'bye\' -- it\'s the 1990\'s... <<guillemets>> too.\n\nSee note[^q].\n\n[^q]: a "quoted" note\n',
     '1. one\n2. two\n\n    cont para\n\n* a\n    * nested\n\n> quote\n> more\n\nTerm\n: Definition\n\n$$x^2$$ and \\\\(y_1\\\\) and x^2^ H~2~O\n',
 ]
 OPML_DOC = ('<?xml version="1.0" encoding="UTF-8"?>\n<opml version="1.0">\n<head><title>T</title></head>\n<body>\n<outline text="Heading &amp; One" '
@@ -63,11 +64,29 @@ def corpus():
 docref = st.one_of(st.integers(0, len(STATEFUL) - 1).map(lambda i: ['s', i]), st.integers(0, len(STATEFUL) - 1).map(lambda i: ['s', i]),
                    st.integers(0, 200).map(lambda i: ['c', i]), gdoc.document(CFG).map(lambda d: ['g', d]), st.just(['m', 0]), st.just(['o', 0]))
 step = st.fixed_dictionaries({'doc': docref, 'fmt': st.sampled_from(FMTS), 'ext': st.sampled_from(EXTS), 'lang': st.integers(0, 6),
-                              'api': st.sampled_from(['s', 'd', 'sd', 'dd', 'e', 'ed', 'E', 'E', 'Esrc', 'Emeta', 'Eexp', 'Eexp', 'Equery'])})
+                              'api': st.sampled_from(['s', 'd', 'sd', 'dd', 'e', 'ed', 'E', 'E', 'Esrc', 'Emeta', 'Eexp', 'Eexp', 'Equery', 'Esub'])})
+
+
+def _session(case):
+    """One engine object for the whole history: every step goes through the reused engine with the extension set of the first step (so the
+    engine is never re-created), under one outer pool bracket; documents, formats, languages and the engine API shapes still vary."""
+    if not case.get('session'):
+        return case
+    ext = case['steps'][0]['ext'] & ~RANDOMS
+    steps = []
+    for s in case['steps']:
+        s = dict(s, ext=ext)
+        if not s['api'].startswith('E'):
+            s['api'] = ('E', 'Esrc', 'Emeta', 'Eexp', 'Equery', 'Esub')[len(steps) % 6]
+        if s['doc'][0] == 'o':
+            s['doc'] = ['s', 0]
+        steps.append(s)
+    return dict(case, steps=steps, outer_pool=True)
 
 
 def strategy(tier):
-    return st.fixed_dictionaries({'steps': st.lists(step, min_size=1, max_size=12), 'outer_pool': st.booleans()})
+    return st.fixed_dictionaries({'steps': st.lists(step, min_size=1, max_size=12), 'outer_pool': st.booleans(),
+                                  'session': st.sampled_from([False, False, True])}).map(_session)
 
 
 def doc_text(d):
@@ -153,6 +172,7 @@ def check(case, ctx):
                 elif api == 'Esrc' or engine[2] != text:
                     w.call('esrc', engine[0], text)
                     engine[2] = text
+                    engine[4:] = []          # the tree the engine may still hold belongs to the previous text: a conversion has to parse first
                 if engine[3] != lang:
                     w.call('elang', engine[0], lang)
                     engine[3] = lang
@@ -160,9 +180,17 @@ def check(case, ctx):
                     w.call('ehas', engine[0])
                     w.call('ekeys', engine[0])
                     w.call('evalue', engine[0], 'title')
+                if api == 'Esub' and case['outer_pool']:
+                    # a partial parse of a sub-range that does not start at 0 (metadata is not looked for there) must leave no trace either
+                    w.call('esub', engine[0], 1 + s['lang'] * 7, 40 + s['lang'] * 11)
+                    ctx.cls('api_Esub')
+                    engine[4:] = []
+                    prev_stateful = True
+                    continue
                 if api == 'Equery' and case['outer_pool']:
                     # metadata queries only (they parse just the metadata block): the engine goes on to the next step without a conversion
                     ctx.cls('api_Equery')
+                    engine[4:] = []
                     prev_stateful = True
                     continue
                 exported = api == 'Eexp' and fmt in ('html', 'latex', 'beamer', 'memoir', 'opml') and s['doc'][0] != 'o'
@@ -178,7 +206,7 @@ def check(case, ctx):
                     ctx.cls('export_without_reparse')
                 else:
                     rr = w.call('econv', engine[0], 'ed' if pkg.is_package_fmt(fmt) or fmt in ('fodt', 'mmd') else 'e', FMT[fmt], FIX)
-                    engine[4:] = [text]
+                    engine[4:] = [text] if fmt != 'mmd' else []        # (the mmd "format" returns the source without parsing it)
                 status, out = rr[0].decode(), rr[1]
                 after = rr[2]
                 if s['doc'][0] != 'o' and after.decode('utf-8', 'surrogateescape') != text:
